@@ -210,6 +210,9 @@ class DuckStub:
                 c, s = self.setting[0], U(db)
         else:
             c, s = self.setting
+            # unqualified names are also looked up in the connection's temp schema (DuckDB search path)
+            if not for_create and name in eng.dbs.get("TEMP", {}).get("schemas", {}).get("MAIN", {}):
+                return "TEMP", "MAIN", name
         if not eng.has_db(c):
             raise duckdb.BinderException(f'Binder Error: Catalog "{c}" does not exist!')
         if not eng.has_schema(c, s):
@@ -336,6 +339,8 @@ class DuckStub:
             and U(tables[0].name) == "SCHEMATA"
             and U(tables[0].db) == "INFORMATION_SCHEMA"
             and not tables[0].catalog
+            and len(st.expressions) == 1
+            and isinstance(st.expressions[0], exp.Star)
         ):
             cond = {}
             for eq in st.find_all(exp.EQ):
